@@ -20,7 +20,7 @@ RULE = ("Hypothesis-generated count-normalised rulesets (plus a separately count
         "draw (either neighbour within 1e-12 of a breakpoint) - the sampler is piecewise constant, so this pins every "
         "derivation's probability; the in-group choice is scripted over every index. End-to-end: HoneywordSession.run(limit=N) "
         "must print exactly N words (N up to 2500, also on Markov-heavy grammars) of the model's non-Markov language in both modes; random_walk twice (and as CLI "
-        "subprocesses) must be identical. Non-trivial = >=2 base structures and a group of >=2 values; distinct = hash of model.")
+        "subprocesses, also with --load after an earlier cracking session of another ruleset / --all_lower left its save file) must be identical. Non-trivial = >=2 base structures and a group of >=2 values; distinct = hash of model.")
 ASSUMPTIONS = ["per variable the probabilities times group sizes add up to 1 (trainer output); the base list may add up to less than 1",
                "for a sub-normalised base list 'its probability' is read as proportional to the listed value"]
 
@@ -382,15 +382,69 @@ def prop_cli(case, rec):
     bad = [w for w in outs[0] if w not in lang]
     if bad:
         raise Violation('not_in_language', f'CLI random_walk: words outside the non-Markov language: {bad[:5]}', case)
+    # the same for a honeyword/random-walk run given --load: the session files of an earlier cracking run (another ruleset, or
+    # --all_lower) sit next to pcfg_guesser.py under the default session name; the words still come from the ruleset of THIS run
+    hist = case.get('history')
+    if not hist:
+        return
+    sav = os.path.join(_CLI, 'default_run.sav')
+    for f in (sav, os.path.join(_CLI, 'default_run.omn')):
+        if os.path.exists(f):
+            os.remove(f)
+    try:
+        if hist in ('other_ruleset', 'all_lower'):
+            rsmodel.write_ruleset(os.path.join(_CLI, 'Rules', 'U'), OTHER_RULESET)
+            args = ['-r', 'U', '-n', '2'] if hist == 'other_ruleset' else ['-r', 'T', '-n', '1', '--all_lower'] + (['--skip_brute'] if sb else [])
+            p0 = subprocess.run([sys.executable, os.path.join(_CLI, 'pcfg_guesser.py')] + args, stdin=subprocess.DEVNULL,
+                                capture_output=True, env=dict(env, PYTHONHASHSEED='1'), cwd=_CLI, timeout=120)
+            if not os.path.exists(sav):
+                rec.skip('history_run_left_no_save_file')
+                return
+        for mode in ('random_walk', 'honeywords'):
+            p = subprocess.run([sys.executable, os.path.join(_CLI, 'pcfg_guesser.py'), '-r', 'T', '-m', mode, '-n', str(n), '--load'] +
+                               (['--skip_brute'] if sb else []), stdin=subprocess.DEVNULL, capture_output=True,
+                               env=dict(env, PYTHONHASHSEED='1'), cwd=_CLI, timeout=120)
+            got = p.stdout.decode('utf-8', 'replace').split('\n')[:-1]
+            rec.case({'n': n, 'history': hist, 'mode': mode, 'cli_words': got[:5]}, len(lang) >= 4, ['cli_load_after_' + hist],
+                     key=[m, n, sb, 'cli', hist, mode])
+            if p.returncode != 0:
+                raise Violation('crash:cli', p.stderr.decode('utf-8', 'replace')[-600:], case)
+            if len(got) != n:
+                raise Violation('limit', f'CLI {mode} -n {n} --load (history: {hist}): {len(got)} lines on stdout', case)
+            bad = [w for w in got if w not in lang]
+            if bad:
+                raise Violation('not_in_language', f'CLI {mode} --load (history: {hist}): words outside the non-Markov language of the '
+                                f'ruleset given with -r: {bad[:5]}', case)
+            if mode == 'random_walk' and got != outs[0]:
+                raise Violation('random_walk_not_reproducible', f'CLI random_walk on the same ruleset differs after history {hist}: '
+                                f'{outs[0][:5]} vs {got[:5]}', case)
+    except subprocess.TimeoutExpired:
+        rec.skip('cli_timeout_inconclusive')
+    finally:
+        for f in (sav, os.path.join(_CLI, 'default_run.omn')):
+            if os.path.exists(f):
+                os.remove(f)
+
+
+OTHER_RULESET = {'encoding': 'utf-8', 'uuid': 'c16-other', 'vars': {'D3': [[0.5, ['777']], [0.25, ['778', '779']]]},
+                 'base': [['D3', 1.0]], 'm_levels': []}
+
+
+@st.composite
+def cli_cases(draw):
+    c = draw(e2e_cases())
+    c['n'] = min(c['n'], 300)
+    c['history'] = draw(st.sampled_from([None, 'no_save_file', 'other_ruleset', 'all_lower']))
+    return c
 
 
 def run_cli(rec, seed, shard, nshards, tier):
-    n = {'quick': 3, 'thorough': 30}[tier]
-    core.hyp_run(rec, prop_cli, e2e_cases(), n, seed, shrink=False)
+    n = {'quick': 4, 'thorough': 30}[tier]
+    core.hyp_run(rec, prop_cli, cli_cases(), n, seed, shrink=False)
 
 
 PARTS = [
     Part('sampler_breakpoints', run_sampler, prop_sampler, {'quick': 8, 'thorough': 16}),
     Part('end_to_end', run_e2e, prop_e2e, {'quick': 4, 'thorough': 16}),
-    Part('cli_reproducible', run_cli, prop_cli, {'quick': 2, 'thorough': 8}),
+    Part('cli_reproducible', run_cli, prop_cli, {'quick': 4, 'thorough': 8}),
 ]
